@@ -166,6 +166,15 @@ func NewRedisOutput(cfg RedisOutputConfig) *RedisOutput {
 	if ro.cfg.CanTransaction && ro.cfg.Redis.IsCluster() && !ro.bisyncEnabled() {
 		ro.cfg.Redis.GetClusterOptions().HandleMoveErr = false
 		ro.cfg.Redis.GetClusterOptions().HandleAskErr = false
+		if ro.cfg.ReplayPipeline && ro.cfg.EnableResumeFromBreakPoint {
+			// every transactional batch carries the resume position, and the cluster client drops multi/exec : a
+			// dispatched batch is one plain pipeline on one node, in which the position is applied although a data
+			// command before it was refused (MOVED/ASK are not followed in this mode) - the run then reports a
+			// restart while the stored position already covers the refused command. Only the blocking path sends
+			// the position in a batch of its own, once the data commands went through.
+			ro.logger.Warnf("transactional replay to a cluster with resuming from the target : pipeline mode is switched off")
+			ro.cfg.ReplayPipeline = false
+		}
 	}
 	ro.outFilter = &filter.RedisKeyFilter{}
 	ro.outFilter.InsertCmdBlackList(filter.NoRouteCmds, true)
